@@ -41,6 +41,11 @@ pub fn evaluate(e: &Expectation, r: &VecResult) -> Option<String> {
     if matches!(r, VecResult::NotRun) {
         return None; // compile / generation failures are reported separately
     }
+    if let VecResult::Err(msg) = r {
+        if msg.starts_with("__TEXT_VALUE_MISMATCH__") && !matches!(e, Expectation::Any) {
+            return Some(format!("deserialising the same JSON from text and from a serde_json::Value disagrees: {}", msg).chars().take(700).collect());
+        }
+    }
     if let VecResult::Crash(_) | VecResult::Panic(_) = r {
         if !matches!(e, Expectation::Any) {
             return Some(show(r));
